@@ -271,6 +271,6 @@ pub fn checks(checks: &mut Vec<Check>) {
     let mut add = |name: &'static str, q: u64, f: fn(&mut Tape, &mut Cx) -> CaseResult| {
         checks.push(Check { name, about: s, kind: Kind::Tape { len: 128, quick: q, thorough: q * 100, f } });
     };
-    add("slerp-edge-Vec3-f64", 6000, slerp_edge::<f64>);
-    add("slerp-edge-Vec3-f32", 6000, slerp_edge::<f32>);
+    add("slerp-edge-Vec3-f64", 12_000, slerp_edge::<f64>);
+    add("slerp-edge-Vec3-f32", 12_000, slerp_edge::<f32>);
 }
